@@ -6,6 +6,7 @@ import Jb.Proofs.Shift
 import Jb.Proofs.GvShift
 import Jb.Proofs.HalfTone
 import Jb.Proofs.EngineHalfTone
+import Jb.Proofs.SynthBridge
 
 set_option linter.unusedSectionVars false
 
@@ -122,5 +123,22 @@ theorem pipeline_transposes_only_f0 (c : Condition K) (h : K) (hh : h ≠ 0) (h0
           if (maskCreate s1.stream thr p.durations).getD f false then (p.lf0.getD f []).map (· + h * Consts.halfTone)
           else p.lf0.getD f [] :=
   engineParams_halfTone c h hh h0 b inp hwf s1 hs1 thr hthr hstatic hsum hnonneg hdflt hpos hu
+
+/-! ### for the whole library (`Jb/Proofs/SynthBridge.lean`) -/
+
+/-- **C15 from the voice files, the "nothing else" half.** On a well-formed voice set, appending
+    `set_additional_half_tone(h)` to any history leaves the durations, the spectral trajectory and the low-pass trajectory
+    exactly as with `h = 0`, and the log-F0 trajectory keeps its length — for every `h`, no assumption on windows,
+    variances or the clamp. (The shift itself, `Synth.params_halfTone_shift`, carries the engine-level theorem's
+    hypotheses stated on `Models::model_stream(1)`.) -/
+theorem library_half_tone_nothing_else {K : Type} [Field K] [LinearOrder K] [IsStrictOrderedRing K] [FloorRing K]
+    [Transc K] [Consts K] [MlpgConsts K] [FromFile K] (big : K) (voices : List Hts.ParsedVoice) (iw : IW K)
+    (h : Synth.VoicesWF voices iw) (v0 : Hts.ParsedVoice) (hv0 : voices.head? = some v0) (ops : List (CondOp K))
+    (f : Condition K → Bool) (hf : Synth.SpeedOnly f) (labels : List (List Char)) (times : List (K × K))
+    (halign : (Synth.condOf (K := K) v0 ops).alignment = true → times.length = labels.length) (ht : K) :
+    ∃ p p', Synth.params big voices iw (ops ++ [.ht 0]) f labels times = .ok p ∧
+      Synth.params big voices iw (ops ++ [.ht ht]) f labels times = .ok p' ∧
+      p'.durations = p.durations ∧ p'.spectrum = p.spectrum ∧ p'.lpf = p.lpf ∧ p'.lf0.length = p.lf0.length :=
+  Synth.params_halfTone_frame big voices iw h v0 hv0 ops f hf labels times halign ht
 
 end Jb.C15
